@@ -105,6 +105,32 @@ func leafVariants() []leafDoc {
 	}
 	var out []leafDoc
 	out = append(out, attrSweepDocs()...)
+	// raw content written by an author who knows about conditional comments, next to blocks that write their own: a not-Outlook
+	// block, an Outlook-only block, both, HTML void elements without "/", at every position of the body and of a column
+	{
+		raws := []string{
+			`<mj-raw><!--[if !mso]><!--><p>not outlook</p><!--<![endif]--></mj-raw>`,
+			`<mj-raw><!--[if mso]><p>outlook</p><![endif]--></mj-raw>`,
+			`<mj-raw><!--[if mso | IE]><p>outlook</p><![endif]--><!--[if !mso]><!--><p>others</p><!--<![endif]--></mj-raw>`,
+			`<mj-raw><p>a<br>b</p><img src="i.png"><hr></mj-raw>`,
+			`<mj-raw><meta name="x" content="y"></mj-raw>`,
+			`<mj-raw><!-- plain comment --></mj-raw>`,
+		}
+		sec := `<mj-section><mj-column><mj-text>T</mj-text></mj-column></mj-section>`
+		blocks := []string{sec, `<mj-wrapper>` + sec + `</mj-wrapper>`, `<mj-hero><mj-text>H</mj-text></mj-hero>`,
+			`<mj-section background-url="http://x/b.png"><mj-column><mj-text>B</mj-text></mj-column></mj-section>`, `<mj-section full-width="full-width"><mj-column><mj-text>F</mj-text></mj-column></mj-section>`}
+		for ri, r := range raws {
+			for bi, b := range blocks {
+				for pi, body := range []string{r + b, b + r, b + r + b, r + r + b, b + r + r} {
+					out = append(out, leafDoc{desc: fmt.Sprintf("rawcond/body/%d-%d-%d", ri, bi, pi), src: "<mjml><mj-body>" + body + "</mj-body></mjml>"})
+				}
+			}
+			out = append(out, leafDoc{desc: fmt.Sprintf("rawcond/column/%d", ri), src: "<mjml><mj-body><mj-section><mj-column>" + r + "<mj-text>T</mj-text>" + r + "</mj-column><mj-column>" + r + "</mj-column></mj-section></mj-body></mjml>"})
+			out = append(out, leafDoc{desc: fmt.Sprintf("rawcond/section/%d", ri), src: "<mjml><mj-body><mj-section>" + r + "<mj-column><mj-text>T</mj-text></mj-column>" + r + "</mj-section></mj-body></mjml>"})
+			out = append(out, leafDoc{desc: fmt.Sprintf("rawcond/wrapper/%d", ri), src: "<mjml><mj-body><mj-wrapper>" + r + sec + r + sec + "</mj-wrapper></mj-body></mjml>"})
+			out = append(out, leafDoc{desc: fmt.Sprintf("rawcond/head/%d", ri), src: "<mjml><mj-head>" + r + "</mj-head><mj-body>" + sec + "</mj-body></mjml>"})
+		}
+	}
 	for _, c := range contexts {
 		for _, l := range leaves {
 			for k, kids := range l.kids {
